@@ -255,6 +255,58 @@ theorem tpm_underscore_witness :
     (countsToTpm NormalizationMethod.simple true underscoreStopBuggy [(1, 100), (0, 100), (2, 200)] 4).rows
       = [(1, 1000000)] := by decide +kernel
 
+/-! ## 9. a feature id that starts with `#` (repairs `fix_merge_header`, `fix_tpm_header`)
+
+`mergeCounts` / `countsToTpm` describe the repaired code: the header of a counts file is its first line, every later
+line is a row whatever its id (`merge_sums`, `tpm_rows`, `tpm_complete` carry no hypothesis on the ids).  The
+behaviour of the tree before the repairs is kept as `mergeCountsOrig` / `countsToTpmOrig`. -/
+
+/-- `line.startswith('#')` on a feature id -/
+def isHashId (f : String) : Bool := f.toList.head? == some '#'
+
+def hashPart1 : Part String := { rows := [("A1", 300), ("B1", 200)], ambiguous := 0, noFeature := 0, notAligned := 0, usable := 5 }
+def hashPart2 : Part String := { rows := [("#G2", 400), ("C2", 100)], ambiguous := 0, noFeature := 0, notAligned := 0, usable := 5 }
+
+/-- **merge_hash_witness**: with the header test by content of the unrepaired tree the gene `#G2` - first row of the
+    second per-chromosome file, 4 uniquely assigned reads - has no row in the merged table; the repaired merge keeps
+    all four rows (replayed on the real code: fixed cases 100003/100004 of the merge correspondence, pipeline run
+    `hash_id`; audit probe C02_hash_id.py) -/
+theorem merge_hash_witness :
+    (mergeCountsOrig isHashId [hashPart1, hashPart2] 0).rows = [("A1", 300), ("B1", 200), ("C2", 100)] ∧
+    (mergeCounts [hashPart1, hashPart2] 0).rows = [("A1", 300), ("B1", 200), ("#G2", 400), ("C2", 100)] := by
+  decide +kernel
+
+/-- **tpm_hash_witness**: on the first per-chromosome file the row `#count7` survived the old merge, but both loops of
+    the old `convert_counts_to_tpm` skipped it: it had no TPM row and the other values were rescaled as if they were the
+    whole table (750000 / 250000); the repaired reader converts every row (500000 / 375000 / 125000) -/
+theorem tpm_hash_witness :
+    (countsToTpmOrig NormalizationMethod.simple true (fun _ => false) isHashId
+        [("#count7", 400), ("A1", 300), ("C2", 100)] 8).rows = [("A1", 750000), ("C2", 250000)] ∧
+    (countsToTpm NormalizationMethod.simple true (fun _ => false)
+        [("#count7", 400), ("A1", 300), ("C2", 100)] 8).rows = [("#count7", 500000), ("A1", 375000), ("C2", 125000)] := by
+  decide +kernel
+
+/-- what the old behaviour was, for all inputs: the two coincide exactly when no skipped row exists -/
+theorem merge_orig_eq_of_no_hash (isHashLike : F → Bool) (parts : List (Part F)) (u : Nat)
+    (h : ∀ p ∈ parts, ∀ r ∈ p.rows, isHashLike r.1 = false) :
+    mergeCountsOrig isHashLike parts u = mergeCounts parts u := by
+  unfold mergeCountsOrig mergeCounts
+  cases parts with
+  | nil => rfl
+  | cons p ps =>
+    have e : ps.map (fun q => q.rows.dropWhile (fun r => isHashLike r.1)) = ps.map (·.rows) := by
+      apply List.map_congr_left
+      intro q hq
+      have hq' := h q (by simp [hq])
+      cases hr : q.rows with
+      | nil => rfl
+      | cons r rs =>
+        have : isHashLike r.1 = false := hq' r (by simp [hr])
+        simp [this]
+    simp only [List.flatMap_cons, List.flatMap_def, e, List.map_cons, List.flatten_cons]
+
+example : ∀ p ∈ [hashPart1], ∀ r ∈ p.rows, isHashId r.1 = false := by decide +kernel
+
 -- non-vacuity of tpm_sum / tpm_ratio / tpm_usable / tpm_complete on a concrete counts file
 example : 0 < totalCounts (tpmInputRows (fun _ => false) [((1 : Nat), (150 : Int)), (2, 50), (3, 0)]) := by
   decide +kernel
